@@ -1,7 +1,8 @@
 (* Proofs about CA/Model.v: what a successful signing request implies, freshness of serial
    numbers along every history, the one-active-root invariant and the atomicity of root-set
    commands.  Stdlib only, no axioms. *)
-From Verif Require Import Base.Prelude CA.Model.
+From Verif Require Import Base.Prelude.
+From Verif Require Import CA.Model.
 From Coq Require Import Sorted.
 Open Scope string_scope.
 Open Scope N_scope.
